@@ -77,4 +77,71 @@ Acyclic(p) ==
 StaticDeps(p, n) ==
     UNION { { p.nodes[n].code[k].deps[i] : i \in 1..Len(p.nodes[n].code[k].deps) }
             : k \in 1..Len(p.nodes[n].code) }
+---------------------------------------------------------------------------
+(* Cyclic programs (C06).                                                  *)
+(*                                                                         *)
+(* Family restriction (checked by CycWellFormed): in every executable node *)
+(* all items but the last read source nodes only, so whether the last item *)
+(* (the only one that may read other executable nodes) is executed is      *)
+(* decided by input values alone.  The active dependency graph is then     *)
+(* well defined; a node lies on a cycle iff it reaches itself.  Nodes on a *)
+(* cycle evaluate to their executor's cycle default, all others normally.  *)
+(* CycSimple additionally requires every node on a cycle to have exactly   *)
+(* one active successor on a cycle, in which case the engine's depth-first *)
+(* discovery marks the whole cycle whatever the entry point (see           *)
+(* DESIGN.md 5/C06); only such (program, inputs) pairs are judged.         *)
+
+IsSrc(p, d) == IsSource(p.nodes[d])
+
+CycWellFormed(p) ==
+    \A n \in NodeIds(p) : \A k \in 1..Len(p.nodes[n].code) :
+        k < Len(p.nodes[n].code) =>
+            \A i \in 1..Len(p.nodes[n].code[k].deps) : IsSrc(p, p.nodes[n].code[k].deps[i])
+
+(* accumulator of node n after its source-only prefix *)
+RECURSIVE PrefixAcc(_, _, _, _, _)
+PrefixAcc(p, env, nd, k, acc) ==
+    IF k >= Len(nd.code) THEN acc
+    ELSE LET it == nd.code[k] IN
+         IF Guard(it, acc)
+         THEN PrefixAcc(p, env, nd, k + 1, RunDeps(p, it, 1, acc, <<>>, env).acc)
+         ELSE PrefixAcc(p, env, nd, k + 1, acc)
+
+(* executable nodes that n actively reads under env *)
+ActiveExecDeps(p, env, n) ==
+    LET nd == p.nodes[n] IN
+    IF IsSource(nd) \/ Len(nd.code) = 0 THEN {}
+    ELSE LET last == nd.code[Len(nd.code)]
+             acc  == PrefixAcc(p, env, nd, 1, nd.init)
+         IN  IF Guard(last, acc)
+             THEN {last.deps[i] : i \in 1..Len(last.deps)} \ {d \in NodeIds(p) : IsSrc(p, d)}
+             ELSE {}
+
+RECURSIVE ReachFrom(_, _, _, _)
+ReachFrom(p, env, frontier, seen) ==
+    LET nxt == (UNION {ActiveExecDeps(p, env, x) : x \in frontier}) \ seen
+    IN  IF nxt = {} THEN seen ELSE ReachFrom(p, env, nxt, seen \cup nxt)
+
+OnCycle(p, env, n) == n \in ReachFrom(p, env, ActiveExecDeps(p, env, n), ActiveExecDeps(p, env, n))
+CycleNodes(p, env) == {n \in NodeIds(p) : ~IsSrc(p, n) /\ OnCycle(p, env, n)}
+
+CycSimple(p, env) ==
+    LET C == CycleNodes(p, env) IN
+    \A n \in C : Cardinality(ActiveExecDeps(p, env, n) \cap C) = 1
+
+(* valuation by rounds: sources and cycle members first, then every node   *)
+(* all of whose active dependencies are known                              *)
+RECURSIVE CycRounds(_, _, _, _)
+CycRounds(p, env, val, k) ==
+    IF k = 0 THEN val
+    ELSE LET ready(n) == val[n] = None /\ \A d \in ActiveExecDeps(p, env, n) : val[d] # None
+             full(n) == [d \in NodeIds(p) |-> IF IsSrc(p, d) THEN env[d] ELSE val[d]]
+             nv == [n \in NodeIds(p) |-> IF ready(n) THEN Eval(p, n, full(n)).out ELSE val[n]]
+         IN  CycRounds(p, env, nv, k - 1)
+
+CycValuation(p, env) ==
+    LET C == CycleNodes(p, env)
+        v0 == [n \in NodeIds(p) |-> IF IsSrc(p, n) THEN env[n]
+                                    ELSE IF n \in C THEN SccDefault(p.nodes[n]) ELSE None]
+    IN  CycRounds(p, env, v0, Len(p.nodes))
 =============================================================================
